@@ -105,8 +105,38 @@ def unjson(o):
 # --------------------------------------------------------------------------- horizons
 
 
-class CaseTimeout(Exception):
-    pass
+class CaseTimeout(BaseException):
+    """Raised by the SIGALRM watchdog.  A BaseException so that `except Exception` inside the library cannot swallow it; the timer
+    also repeats every second after it first fires, in case some `except BaseException` / `finally` path does."""
+
+
+class CallTimeout(BaseException):
+    """One library call exceeded its own wall-clock horizon (see call_with_timeout)."""
+
+
+def call_with_timeout(fn: Callable, seconds: float):
+    """Run fn() under a per-call wall-clock horizon nested inside the per-case watchdog.  Raises CallTimeout when this call
+    (not the whole case) ran out of time, so that a history exploration can record the hang and go on with the next event."""
+    rem, _ = signal.getitimer(signal.ITIMER_REAL)
+    if rem <= 0:  # no case watchdog armed (replay / unit use): plain call
+        return fn()
+    use = min(seconds, rem)
+    t0 = time.time()
+    signal.setitimer(signal.ITIMER_REAL, use, 1.0)
+    try:
+        return fn()
+    except CaseTimeout:
+        if use < rem and time.time() - t0 >= use * 0.9:
+            raise CallTimeout() from None
+        raise
+    finally:
+        left = rem - (time.time() - t0)
+        signal.setitimer(signal.ITIMER_REAL, max(0.05, left), 1.0)
+
+
+def over_budget() -> bool:
+    """True once some worker has recorded a violation and the run is past its soft budget (never true on a clean tree)."""
+    return bool(_VIOL_FLAG is not None and _VIOL_FLAG.value and _SOFT_BUDGET and time.time() - _T0 > _SOFT_BUDGET)
 
 
 class HorizonExceeded(Exception):
@@ -214,6 +244,9 @@ class Recorder:
         if d > self.max_depth:
             self.max_depth = d
 
+    CALL_TIMEOUT = 300.0  # wall-clock horizon of one library call made through impl/attempt (typical calls take milliseconds)
+    stopped_early = False  # set by a walker that gave up because the run is over its soft budget after a violation
+
     RETAIN_CASES = 2  # a retained result is re-inspected at the end of its own case and of the next 2 cases
     RETAIN_PER_CASE = 12
 
@@ -269,6 +302,8 @@ class Recorder:
         """
         self._failed = True
         self.n_viol += 1
+        if _VIOL_FLAG is not None and not _VIOL_FLAG.value:
+            _VIOL_FLAG.value = 1
         klass = klass or kind
         ent = self.viol.get(klass)
         if ent is None:
@@ -299,10 +334,13 @@ class Recorder:
         """
         self.transitions += 1
         try:
-            val = fn(*args, **kwargs)
+            val = call_with_timeout(lambda: fn(*args, **kwargs), self.CALL_TIMEOUT)
             if self.auto_retain:
                 self._auto_retain(what, val)
             return True, val
+        except CallTimeout as e:
+            self.fail(f"hang:{what}", f"the call did not return within {self.CALL_TIMEOUT}s wall clock", klass or f"hang:{what}")
+            return False, e
         except (CaseTimeout, KeyboardInterrupt):
             raise
         except BaseException as e:  # noqa: BLE001 - the implementation may raise anything
@@ -323,7 +361,10 @@ class Recorder:
         """Call into the implementation where an exception is an *allowed* answer."""
         self.transitions += 1
         try:
-            return True, fn(*args, **kwargs)
+            return True, call_with_timeout(lambda: fn(*args, **kwargs), self.CALL_TIMEOUT)
+        except CallTimeout as e:
+            self.fail("hang:attempt", f"the call did not return within {self.CALL_TIMEOUT}s wall clock", "hang:attempt")
+            return False, e
         except (CaseTimeout, KeyboardInterrupt):
             raise
         except BaseException as e:  # noqa: BLE001
@@ -405,7 +446,7 @@ def _alarm(signum, frame):
 def run_case(space: Space, idx: int, case, R: Recorder) -> None:
     R._begin(idx, case)
     R.auto_retain = bool(getattr(space, "auto_retain", False))
-    signal.setitimer(signal.ITIMER_REAL, space.case_timeout)
+    signal.setitimer(signal.ITIMER_REAL, space.case_timeout, 1.0)
     try:
         space.check(case, R)
     except CaseTimeout:
@@ -430,8 +471,12 @@ _T0 = 0.0
 _SOFT_BUDGET = 0.0  # seconds; only ever cuts a run short AFTER a violation has been recorded (never on a clean tree)
 
 
+_PROGRESS = None  # shared array: enumeration index of the case each running task is executing (crash attribution)
+_MEM_LIMIT = 0
+
+
 def _work(task):
-    si, k, W = task
+    si, k, W, start, slot = task
     space = _SPACES[si]
     R = Recorder(space.name, _SEED)
     signal.signal(signal.SIGALRM, _alarm)
@@ -439,24 +484,64 @@ def _work(task):
     stopped = False
     try:
         for idx, case in enumerate(space.gen()):
-            if (idx + rot) % W != k:
+            if (idx + rot) % W != k or idx < start:
                 continue
-            if _VIOL_FLAG is not None and _VIOL_FLAG.value and _SOFT_BUDGET and time.time() - _T0 > _SOFT_BUDGET:
+            if over_budget():
                 stopped = True  # a violation is already on record and the run is over budget: report what was covered
                 break
+            if _PROGRESS is not None:
+                _PROGRESS[slot] = idx
             run_case(space, idx, case, R)
             if R.n_viol and _VIOL_FLAG is not None and not _VIOL_FLAG.value:
                 _VIOL_FLAG.value = 1
     except Exception:  # enumeration itself failed: harness bug
         return {"space": space.name, "harness_error": traceback.format_exc()}
     res = R.result()
-    res["stopped_early"] = stopped
+    res["stopped_early"] = stopped or R.stopped_early
+    return res
+
+
+def _proc_main(conn, task):
+    """Body of one forked worker process: one task (a stripe of one space), result sent through the pipe."""
+    if _MEM_LIMIT:
+        try:
+            import resource
+
+            resource.setrlimit(resource.RLIMIT_AS, (_MEM_LIMIT, _MEM_LIMIT))  # a runaway allocation becomes MemoryError, not an OOM kill
+        except Exception:  # noqa: BLE001
+            pass
+    try:
+        res = _work(task)
+    except BaseException:  # noqa: BLE001
+        res = {"space": _SPACES[task[0]].name, "harness_error": traceback.format_exc()}
+    try:
+        conn.send(res)
+    finally:
+        conn.close()
+
+
+def _crash_result(space: Space, idx: int, exitcode) -> dict:
+    """Pseudo-result for a worker that died (signal / hard exit) while executing case `idx`: a violation that names the case."""
+    case = None
+    for i, c in enumerate(space.gen()):
+        if i == idx:
+            case = c
+            break
+    why = f"signal {-exitcode}" if isinstance(exitcode, int) and exitcode < 0 else f"exit status {exitcode}"
+    klass = f"worker-died:{space.name}"
+    R = Recorder(space.name, _SEED)
+    R._begin(idx, case)
+    R.fail("worker-died", f"the worker process executing this case died ({why}) - crash, hard exit or kill inside the library call", klass)
+    res = R.result()
+    res["evaluations"] = 0
+    res["stopped_early"] = False
+    res["lost_stripe_prefix"] = True
     return res
 
 
 def explore(spaces: list[Space], seed: int, workers: int | None = None, log=print) -> dict:
     """Run every space to completion; returns merged per-space and total results."""
-    global _SPACES, _SEED, _VIOL_FLAG, _T0, _SOFT_BUDGET
+    global _SPACES, _SEED, _VIOL_FLAG, _T0, _SOFT_BUDGET, _PROGRESS, _MEM_LIMIT
     _SPACES = spaces
     _SEED = seed
     _VIOL_FLAG = mp.get_context("fork").Value("i", 0)
@@ -464,51 +549,100 @@ def explore(spaces: list[Space], seed: int, workers: int | None = None, log=prin
     tier = os.environ.get("VERIF_TIER", "quick")
     _SOFT_BUDGET = float(os.environ.get("VERIF_SOFT_BUDGET_S", "") or (300 if tier == "quick" else 2400))
     W = workers or min(16, os.cpu_count() or 1)
-    tasks = [(si, k, W) for si in range(len(spaces)) for k in range(W)]
+    tasks = [(si, k, W, 0, slot) for slot, (si, k) in enumerate((si, k) for si in range(len(spaces)) for k in range(W))]
     # rotate task order by seed (does not change what is explored)
     if tasks:
         r = seed % len(tasks)
         tasks = tasks[r:] + tasks[:r]
     merged: dict[str, dict] = {}
     t0 = time.time()
+    crashed_spaces: set[str] = set()
+
+    def merge(res):
+        name = res["space"]
+        if "harness_error" in res:
+            raise RuntimeError(f"harness error while enumerating {name}:\n{res['harness_error']}")
+        if res.get("lost_stripe_prefix"):
+            crashed_spaces.add(name)
+        m = merged.get(name)
+        if m is None:
+            merged[name] = res
+            return
+        m["stopped_early"] = bool(m.get("stopped_early")) or bool(res.get("stopped_early"))
+        for key in ("evaluations", "transitions", "validated", "n_viol"):
+            m[key] += res[key]
+        for key in ("states", "outcomes", "nontrivial"):
+            m[key] |= res[key]
+        for key in ("skipped", "notes"):
+            for kk, vv in res[key].items():
+                m[key][kk] = m[key].get(kk, 0) + vv
+        for kl, ent in res["viol"].items():
+            cur = m["viol"].get(kl)
+            if cur is None:
+                m["viol"][kl] = ent
+            else:
+                cur["count"] += ent["count"]
+                if ent["idx"] < cur["idx"]:
+                    cur["idx"], cur["example"] = ent["idx"], ent["example"]
+        m["samples"] = sorted(m["samples"] + res["samples"], key=lambda t: t[0])[:3]
+        m["max_depth"] = max(m["max_depth"], res["max_depth"])
+
     if W == 1:
-        results: Iterable = map(_work, tasks)
-        pool = None
+        _PROGRESS = None
+        for t in tasks:
+            merge(_work(t))
     else:
+        from multiprocessing import connection as mpc
+
         ctx = mp.get_context("fork")
-        pool = ctx.Pool(W)
-        results = pool.imap_unordered(_work, tasks)
-    try:
-        for res in results:
-            name = res["space"]
-            if "harness_error" in res:
-                raise RuntimeError(f"harness error while enumerating {name}:\n{res['harness_error']}")
-            m = merged.get(name)
-            if m is None:
-                merged[name] = res
-                continue
-            m["stopped_early"] = bool(m.get("stopped_early")) or bool(res.get("stopped_early"))
-            for key in ("evaluations", "transitions", "validated", "n_viol"):
-                m[key] += res[key]
-            for key in ("states", "outcomes", "nontrivial"):
-                m[key] |= res[key]
-            for key in ("skipped", "notes"):
-                for kk, vv in res[key].items():
-                    m[key][kk] = m[key].get(kk, 0) + vv
-            for kl, ent in res["viol"].items():
-                cur = m["viol"].get(kl)
-                if cur is None:
-                    m["viol"][kl] = ent
-                else:
-                    cur["count"] += ent["count"]
-                    if ent["idx"] < cur["idx"]:
-                        cur["idx"], cur["example"] = ent["idx"], ent["example"]
-            m["samples"] = sorted(m["samples"] + res["samples"], key=lambda t: t[0])[:3]
-            m["max_depth"] = max(m["max_depth"], res["max_depth"])
-    finally:
-        if pool is not None:
-            pool.terminate()
-            pool.join()
+        _PROGRESS = ctx.Array("q", max(1, len(tasks)), lock=False)
+        _MEM_LIMIT = int(float(os.environ.get("VERIF_MEM_GB", "") or 6) * (1 << 30))
+        MAX_CRASHES = 3  # per stripe; after that the rest of the stripe is abandoned (reported as not exhaustive)
+        crashes: dict[int, int] = {}
+        pending = deque(tasks)
+        running: dict[Any, tuple] = {}  # parent end of the pipe -> (process, task)
+        try:
+            while pending or running:
+                while pending and len(running) < W:
+                    t = pending.popleft()
+                    _PROGRESS[t[4]] = -1
+                    pc, cc = ctx.Pipe(duplex=False)
+                    p = ctx.Process(target=_proc_main, args=(cc, t))
+                    p.start()
+                    cc.close()
+                    running[pc] = (p, t)
+                ready = mpc.wait(list(running.keys()), timeout=5.0)
+                for pc in ready:
+                    p, t = running.pop(pc)
+                    try:
+                        res = pc.recv()
+                    except (EOFError, OSError):
+                        res = None
+                    pc.close()
+                    p.join()
+                    if res is not None:
+                        merge(res)
+                        continue
+                    # the process ended without delivering a result: it died inside a case
+                    idx = int(_PROGRESS[t[4]])
+                    space = spaces[t[0]]
+                    if idx < 0:
+                        raise RuntimeError(f"worker for space {space.name} died before its first case (exit {p.exitcode})")
+                    merge(_crash_result(space, idx, p.exitcode))
+                    _VIOL_FLAG.value = 1
+                    crashes[t[4]] = crashes.get(t[4], 0) + 1
+                    if crashes[t[4]] < MAX_CRASHES:
+                        pending.append((t[0], t[1], t[2], idx + 1, t[4]))  # resume the stripe after the fatal case
+        finally:
+            for pc, (p, t) in running.items():
+                try:
+                    p.kill()
+                    p.join()
+                except Exception:  # noqa: BLE001
+                    pass
+    for name in crashed_spaces:
+        if name in merged:
+            merged[name]["stopped_early"] = True  # counts of the stripe before the crash are lost: not an exhaustive report
     for s in spaces:
         m = merged.get(s.name)
         if m is not None:
@@ -552,6 +686,10 @@ def bfs(
     capped = 0
     deepest = 0
     while frontier:
+        if over_budget():
+            R.stopped_early = True  # a violation is on record and the run is over budget: report what was covered
+            capped += 1
+            break
         s, d = frontier.popleft()
         if d >= max_depth:
             capped += 1
@@ -560,6 +698,9 @@ def bfs(
             capped += 1
             continue
         for ev in enabled(s):
+            if R._failed and over_budget():
+                R.stopped_early = True
+                break
             nxt = step(s, ev)
             if nxt is None:
                 continue
